@@ -39,6 +39,24 @@ T = {
     "C18": ("set_created_from_assertion() removes the operand from problem.constraints: its name can be taken again",
             "a named constraint, nested in an operator, then another constraint of the same name", "missed 0/3",
             "C18 name mode 'dup_used_as_operand' for every constraint class"),
+    "C01": ("a task that precedes a mandatory task (flag set when the TaskPrecedence is built) gets no end <= horizon; the flag stays when the precedence becomes an operand of a logical operator",
+            "a fixed horizon, a precedence between mandatory tasks nested in Or / Xor / Not / Implies / IfThenElse, a schedule other than the default", "missed 0/3",
+            "C01 stratum: task constraints as operands of logical operators, optional constraints, group precedences, declared horizon"),
+    "C07": ("IndicatorBounds writes its limits into indicator.bounds when the indicator declares none; the incremental optimiser trusts them also when the constraint is optional or nested",
+            "an objective over an indicator without declared bounds, an optional / nested IndicatorBounds created before the objective, the search passing through the bound", "missed 0/3 by C07 (3/3 by C15)",
+            "C07 stratum: optional (void) IndicatorBounds / IndicatorTarget on indicators without declared bounds"),
+    "C11": ("resources report (task start, task end) instead of their own busy interval",
+            "delay_in / early_out / dynamic requirements", "caught 3/3", None),
+    "C13": ("the iteration counter of the incremental optimiser becomes an instance attribute that is never reset: max_iter is a lifetime budget",
+            "max_iter set and two optimisation runs on one solver object", "caught 3/3", None),
+    "C15": ("with parallel=True the incremental optimiser pushes no scope for its bounds (and pops none): they stay in the solver",
+            "parallel=True, an objective, the incremental optimiser, a second call on the same solver", "missed 0/3",
+            "C15: every configuration that returned a solution is asked once more on the same solver object (same verdict, same optimum)"),
+    "C16": ("after the pops the incremental optimiser deletes the last num_push tracking literals; with no push the whole list is emptied and the debug export loses its literals",
+            "debug=True, an objective with the incremental optimiser that stops without pushing (infeasible, bound reached at once), export after solve", "missed 0/3",
+            "C16.smt2 mode: debug + incremental optimiser with an objective"),
+    "C17": ("the calendar branch of the x axis reads problem.horizon instead of solution.horizon",
+            "delta_time set and no declared horizon", "caught 3/3", None),
     "C19": ("debug export_to_smt2 asserts the tracking literals on the live solver: the unsat core is empty afterwards",
             "debug=True, export_to_smt2() before solve() on an infeasible problem", "missed 0/3",
             "C19: initialize() / export_to_smt2() drawn before solve() on the debug solver"),
